@@ -1877,32 +1877,32 @@ const InstDB::CommonInfo InstDB::commonData[] = {
 // ${NameData:Begin}
 // ------------------- Automatically generated, do not edit -------------------
 const InstNameIndex InstDB::_inst_name_index = {{
-  { Inst::kIdAbs          , Inst::kIdAnd_v         + 1 },
-  { Inst::kIdB            , Inst::kIdBsl_v         + 1 },
-  { Inst::kIdCas          , Inst::kIdCnt_v         + 1 },
-  { Inst::kIdDc           , Inst::kIdDup_v         + 1 },
-  { Inst::kIdEon          , Inst::kIdExt_v         + 1 },
-  { Inst::kIdFabd_v       , Inst::kIdFsub_v        + 1 },
-  { Inst::kIdGmi          , Inst::kIdGmi           + 1 },
-  { Inst::kIdHint         , Inst::kIdHvc           + 1 },
-  { Inst::kIdIc           , Inst::kIdIns_v         + 1 },
-  { Inst::kIdNone         , Inst::kIdNone          + 1 },
-  { Inst::kIdNone         , Inst::kIdNone          + 1 },
-  { Inst::kIdLdadd        , Inst::kIdLdur_v        + 1 },
-  { Inst::kIdMadd         , Inst::kIdMvni_v        + 1 },
-  { Inst::kIdNeg          , Inst::kIdNot_v         + 1 },
-  { Inst::kIdOrn          , Inst::kIdOrr_v         + 1 },
-  { Inst::kIdPacda        , Inst::kIdPmull2_v      + 1 },
-  { Inst::kIdNone         , Inst::kIdNone          + 1 },
-  { Inst::kIdRbit         , Inst::kIdRsubhn2_v     + 1 },
-  { Inst::kIdSbc          , Inst::kIdSxtl2_v       + 1 },
-  { Inst::kIdTlbi         , Inst::kIdTrn2_v        + 1 },
-  { Inst::kIdUbfiz        , Inst::kIdUzp2_v        + 1 },
-  { Inst::kIdNone         , Inst::kIdNone          + 1 },
-  { Inst::kIdWfe          , Inst::kIdWfi           + 1 },
-  { Inst::kIdXaflag       , Inst::kIdXtn2_v        + 1 },
-  { Inst::kIdYield        , Inst::kIdYield         + 1 },
-  { Inst::kIdZip1_v       , Inst::kIdZip2_v        + 1 }
+  { 1                     , 36                     + 1 },
+  { 37                    , 60                     + 1 },
+  { 61                    , 117                    + 1 },
+  { 118                   , 126                    + 1 },
+  { 127                   , 133                    + 1 },
+  { 134                   , 215                    + 1 },
+  { 216                   , 216                    + 1 },
+  { 217                   , 219                    + 1 },
+  { 220                   , 222                    + 1 },
+  { 0                     , 0                      + 1 },
+  { 0                     , 0                      + 1 },
+  { 223                   , 369                    + 1 },
+  { 370                   , 384                    + 1 },
+  { 385                   , 390                    + 1 },
+  { 391                   , 392                    + 1 },
+  { 393                   , 402                    + 1 },
+  { 0                     , 0                      + 1 },
+  { 403                   , 417                    + 1 },
+  { 418                   , 648                    + 1 },
+  { 649                   , 656                    + 1 },
+  { 657                   , 730                    + 1 },
+  { 0                     , 0                      + 1 },
+  { 731                   , 732                    + 1 },
+  { 733                   , 739                    + 1 },
+  { 740                   , 740                    + 1 },
+  { 741                   , 742                    + 1 }
 }, uint16_t(9)};
 
 const char InstDB::_inst_name_string_table[] =
@@ -2697,6 +2697,752 @@ const uint32_t InstDB::_inst_name_index_table[] = {
   0x800EBA98, // Small 'xtn2'.
   0x800E413A, // Small 'zip1'.
   0x800EC13A  // Small 'zip2'.
+};
+
+const uint16_t InstDB::_inst_name_sorted_id_table[] = {
+  Inst::kIdNone, // #0
+  Inst::kIdAbs, // #1
+  Inst::kIdAdc, // #2
+  Inst::kIdAdcs, // #3
+  Inst::kIdAdd, // #4
+  Inst::kIdAddg, // #5
+  Inst::kIdAddhn_v, // #6
+  Inst::kIdAddhn2_v, // #7
+  Inst::kIdAddp_v, // #8
+  Inst::kIdAdds, // #9
+  Inst::kIdAddv_v, // #10
+  Inst::kIdAdr, // #11
+  Inst::kIdAdrp, // #12
+  Inst::kIdAesd_v, // #13
+  Inst::kIdAese_v, // #14
+  Inst::kIdAesimc_v, // #15
+  Inst::kIdAesmc_v, // #16
+  Inst::kIdAnd, // #17
+  Inst::kIdAnds, // #18
+  Inst::kIdAsr, // #19
+  Inst::kIdAsrv, // #20
+  Inst::kIdAt, // #21
+  Inst::kIdAutda, // #22
+  Inst::kIdAutdb, // #23
+  Inst::kIdAutdza, // #24
+  Inst::kIdAutdzb, // #25
+  Inst::kIdAutia, // #26
+  Inst::kIdAutia1716, // #27
+  Inst::kIdAutiasp, // #28
+  Inst::kIdAutiaz, // #29
+  Inst::kIdAutib, // #30
+  Inst::kIdAutib1716, // #31
+  Inst::kIdAutibsp, // #32
+  Inst::kIdAutibz, // #33
+  Inst::kIdAutiza, // #34
+  Inst::kIdAutizb, // #35
+  Inst::kIdAxflag, // #36
+  Inst::kIdB, // #37
+  Inst::kIdBc, // #38
+  Inst::kIdBcax_v, // #39
+  Inst::kIdBfc, // #40
+  Inst::kIdBfcvt_v, // #41
+  Inst::kIdBfcvtn_v, // #42
+  Inst::kIdBfcvtn2_v, // #43
+  Inst::kIdBfdot_v, // #44
+  Inst::kIdBfi, // #45
+  Inst::kIdBfm, // #46
+  Inst::kIdBfmlalb_v, // #47
+  Inst::kIdBfmlalt_v, // #48
+  Inst::kIdBfmmla_v, // #49
+  Inst::kIdBfxil, // #50
+  Inst::kIdBic, // #51
+  Inst::kIdBics, // #52
+  Inst::kIdBif_v, // #53
+  Inst::kIdBit_v, // #54
+  Inst::kIdBl, // #55
+  Inst::kIdBlr, // #56
+  Inst::kIdBr, // #57
+  Inst::kIdBrk, // #58
+  Inst::kIdBsl_v, // #59
+  Inst::kIdBti, // #60
+  Inst::kIdCas, // #61
+  Inst::kIdCasa, // #62
+  Inst::kIdCasab, // #63
+  Inst::kIdCasah, // #64
+  Inst::kIdCasal, // #65
+  Inst::kIdCasalb, // #66
+  Inst::kIdCasalh, // #67
+  Inst::kIdCasb, // #68
+  Inst::kIdCash, // #69
+  Inst::kIdCasl, // #70
+  Inst::kIdCaslb, // #71
+  Inst::kIdCaslh, // #72
+  Inst::kIdCasp, // #73
+  Inst::kIdCaspa, // #74
+  Inst::kIdCaspal, // #75
+  Inst::kIdCaspl, // #76
+  Inst::kIdCbnz, // #77
+  Inst::kIdCbz, // #78
+  Inst::kIdCcmn, // #79
+  Inst::kIdCcmp, // #80
+  Inst::kIdCfinv, // #81
+  Inst::kIdChkfeat, // #82
+  Inst::kIdCinc, // #83
+  Inst::kIdCinv, // #84
+  Inst::kIdClrbhb, // #85
+  Inst::kIdClrex, // #86
+  Inst::kIdCls, // #87
+  Inst::kIdClz, // #88
+  Inst::kIdCmeq_v, // #89
+  Inst::kIdCmge_v, // #90
+  Inst::kIdCmgt_v, // #91
+  Inst::kIdCmhi_v, // #92
+  Inst::kIdCmhs_v, // #93
+  Inst::kIdCmle_v, // #94
+  Inst::kIdCmlt_v, // #95
+  Inst::kIdCmn, // #96
+  Inst::kIdCmp, // #97
+  Inst::kIdCmpp, // #98
+  Inst::kIdCmtst_v, // #99
+  Inst::kIdCneg, // #100
+  Inst::kIdCnt, // #101
+  Inst::kIdCrc32b, // #102
+  Inst::kIdCrc32cb, // #103
+  Inst::kIdCrc32ch, // #104
+  Inst::kIdCrc32cw, // #105
+  Inst::kIdCrc32cx, // #106
+  Inst::kIdCrc32h, // #107
+  Inst::kIdCrc32w, // #108
+  Inst::kIdCrc32x, // #109
+  Inst::kIdCsdb, // #110
+  Inst::kIdCsel, // #111
+  Inst::kIdCset, // #112
+  Inst::kIdCsetm, // #113
+  Inst::kIdCsinc, // #114
+  Inst::kIdCsinv, // #115
+  Inst::kIdCsneg, // #116
+  Inst::kIdCtz, // #117
+  Inst::kIdDc, // #118
+  Inst::kIdDcps1, // #119
+  Inst::kIdDcps2, // #120
+  Inst::kIdDcps3, // #121
+  Inst::kIdDgh, // #122
+  Inst::kIdDmb, // #123
+  Inst::kIdDrps, // #124
+  Inst::kIdDsb, // #125
+  Inst::kIdDup_v, // #126
+  Inst::kIdEon, // #127
+  Inst::kIdEor, // #128
+  Inst::kIdEor3_v, // #129
+  Inst::kIdEret, // #130
+  Inst::kIdEsb, // #131
+  Inst::kIdExt_v, // #132
+  Inst::kIdExtr, // #133
+  Inst::kIdFabd_v, // #134
+  Inst::kIdFabs_v, // #135
+  Inst::kIdFacge_v, // #136
+  Inst::kIdFacgt_v, // #137
+  Inst::kIdFadd_v, // #138
+  Inst::kIdFaddp_v, // #139
+  Inst::kIdFcadd_v, // #140
+  Inst::kIdFccmp_v, // #141
+  Inst::kIdFccmpe_v, // #142
+  Inst::kIdFcmeq_v, // #143
+  Inst::kIdFcmge_v, // #144
+  Inst::kIdFcmgt_v, // #145
+  Inst::kIdFcmla_v, // #146
+  Inst::kIdFcmle_v, // #147
+  Inst::kIdFcmlt_v, // #148
+  Inst::kIdFcmp_v, // #149
+  Inst::kIdFcmpe_v, // #150
+  Inst::kIdFcsel_v, // #151
+  Inst::kIdFcvt_v, // #152
+  Inst::kIdFcvtas_v, // #153
+  Inst::kIdFcvtau_v, // #154
+  Inst::kIdFcvtl_v, // #155
+  Inst::kIdFcvtl2_v, // #156
+  Inst::kIdFcvtms_v, // #157
+  Inst::kIdFcvtmu_v, // #158
+  Inst::kIdFcvtn_v, // #159
+  Inst::kIdFcvtn2_v, // #160
+  Inst::kIdFcvtns_v, // #161
+  Inst::kIdFcvtnu_v, // #162
+  Inst::kIdFcvtps_v, // #163
+  Inst::kIdFcvtpu_v, // #164
+  Inst::kIdFcvtxn_v, // #165
+  Inst::kIdFcvtxn2_v, // #166
+  Inst::kIdFcvtzs_v, // #167
+  Inst::kIdFcvtzu_v, // #168
+  Inst::kIdFdiv_v, // #169
+  Inst::kIdFjcvtzs_v, // #170
+  Inst::kIdFmadd_v, // #171
+  Inst::kIdFmax_v, // #172
+  Inst::kIdFmaxnm_v, // #173
+  Inst::kIdFmaxnmp_v, // #174
+  Inst::kIdFmaxnmv_v, // #175
+  Inst::kIdFmaxp_v, // #176
+  Inst::kIdFmaxv_v, // #177
+  Inst::kIdFmin_v, // #178
+  Inst::kIdFminnm_v, // #179
+  Inst::kIdFminnmp_v, // #180
+  Inst::kIdFminnmv_v, // #181
+  Inst::kIdFminp_v, // #182
+  Inst::kIdFminv_v, // #183
+  Inst::kIdFmla_v, // #184
+  Inst::kIdFmlal_v, // #185
+  Inst::kIdFmlal2_v, // #186
+  Inst::kIdFmls_v, // #187
+  Inst::kIdFmlsl_v, // #188
+  Inst::kIdFmlsl2_v, // #189
+  Inst::kIdFmov_v, // #190
+  Inst::kIdFmsub_v, // #191
+  Inst::kIdFmul_v, // #192
+  Inst::kIdFmulx_v, // #193
+  Inst::kIdFneg_v, // #194
+  Inst::kIdFnmadd_v, // #195
+  Inst::kIdFnmsub_v, // #196
+  Inst::kIdFnmul_v, // #197
+  Inst::kIdFrecpe_v, // #198
+  Inst::kIdFrecps_v, // #199
+  Inst::kIdFrecpx_v, // #200
+  Inst::kIdFrint32x_v, // #201
+  Inst::kIdFrint32z_v, // #202
+  Inst::kIdFrint64x_v, // #203
+  Inst::kIdFrint64z_v, // #204
+  Inst::kIdFrinta_v, // #205
+  Inst::kIdFrinti_v, // #206
+  Inst::kIdFrintm_v, // #207
+  Inst::kIdFrintn_v, // #208
+  Inst::kIdFrintp_v, // #209
+  Inst::kIdFrintx_v, // #210
+  Inst::kIdFrintz_v, // #211
+  Inst::kIdFrsqrte_v, // #212
+  Inst::kIdFrsqrts_v, // #213
+  Inst::kIdFsqrt_v, // #214
+  Inst::kIdFsub_v, // #215
+  Inst::kIdGmi, // #216
+  Inst::kIdHint, // #217
+  Inst::kIdHlt, // #218
+  Inst::kIdHvc, // #219
+  Inst::kIdIc, // #220
+  Inst::kIdIns_v, // #221
+  Inst::kIdIsb, // #222
+  Inst::kIdLd1_v, // #223
+  Inst::kIdLd1r_v, // #224
+  Inst::kIdLd2_v, // #225
+  Inst::kIdLd2r_v, // #226
+  Inst::kIdLd3_v, // #227
+  Inst::kIdLd3r_v, // #228
+  Inst::kIdLd4_v, // #229
+  Inst::kIdLd4r_v, // #230
+  Inst::kIdLdadd, // #231
+  Inst::kIdLdadda, // #232
+  Inst::kIdLdaddab, // #233
+  Inst::kIdLdaddah, // #234
+  Inst::kIdLdaddal, // #235
+  Inst::kIdLdaddalb, // #236
+  Inst::kIdLdaddalh, // #237
+  Inst::kIdLdaddb, // #238
+  Inst::kIdLdaddh, // #239
+  Inst::kIdLdaddl, // #240
+  Inst::kIdLdaddlb, // #241
+  Inst::kIdLdaddlh, // #242
+  Inst::kIdLdar, // #243
+  Inst::kIdLdarb, // #244
+  Inst::kIdLdarh, // #245
+  Inst::kIdLdaxp, // #246
+  Inst::kIdLdaxr, // #247
+  Inst::kIdLdaxrb, // #248
+  Inst::kIdLdaxrh, // #249
+  Inst::kIdLdclr, // #250
+  Inst::kIdLdclra, // #251
+  Inst::kIdLdclrab, // #252
+  Inst::kIdLdclrah, // #253
+  Inst::kIdLdclral, // #254
+  Inst::kIdLdclralb, // #255
+  Inst::kIdLdclralh, // #256
+  Inst::kIdLdclrb, // #257
+  Inst::kIdLdclrh, // #258
+  Inst::kIdLdclrl, // #259
+  Inst::kIdLdclrlb, // #260
+  Inst::kIdLdclrlh, // #261
+  Inst::kIdLdeor, // #262
+  Inst::kIdLdeora, // #263
+  Inst::kIdLdeorab, // #264
+  Inst::kIdLdeorah, // #265
+  Inst::kIdLdeoral, // #266
+  Inst::kIdLdeoralb, // #267
+  Inst::kIdLdeoralh, // #268
+  Inst::kIdLdeorb, // #269
+  Inst::kIdLdeorh, // #270
+  Inst::kIdLdeorl, // #271
+  Inst::kIdLdeorlb, // #272
+  Inst::kIdLdeorlh, // #273
+  Inst::kIdLdg, // #274
+  Inst::kIdLdgm, // #275
+  Inst::kIdLdlar, // #276
+  Inst::kIdLdlarb, // #277
+  Inst::kIdLdlarh, // #278
+  Inst::kIdLdnp, // #279
+  Inst::kIdLdp, // #280
+  Inst::kIdLdpsw, // #281
+  Inst::kIdLdr, // #282
+  Inst::kIdLdraa, // #283
+  Inst::kIdLdrab, // #284
+  Inst::kIdLdrb, // #285
+  Inst::kIdLdrh, // #286
+  Inst::kIdLdrsb, // #287
+  Inst::kIdLdrsh, // #288
+  Inst::kIdLdrsw, // #289
+  Inst::kIdLdset, // #290
+  Inst::kIdLdseta, // #291
+  Inst::kIdLdsetab, // #292
+  Inst::kIdLdsetah, // #293
+  Inst::kIdLdsetal, // #294
+  Inst::kIdLdsetalb, // #295
+  Inst::kIdLdsetalh, // #296
+  Inst::kIdLdsetb, // #297
+  Inst::kIdLdseth, // #298
+  Inst::kIdLdsetl, // #299
+  Inst::kIdLdsetlb, // #300
+  Inst::kIdLdsetlh, // #301
+  Inst::kIdLdsmax, // #302
+  Inst::kIdLdsmaxa, // #303
+  Inst::kIdLdsmaxab, // #304
+  Inst::kIdLdsmaxah, // #305
+  Inst::kIdLdsmaxal, // #306
+  Inst::kIdLdsmaxalb, // #307
+  Inst::kIdLdsmaxalh, // #308
+  Inst::kIdLdsmaxb, // #309
+  Inst::kIdLdsmaxh, // #310
+  Inst::kIdLdsmaxl, // #311
+  Inst::kIdLdsmaxlb, // #312
+  Inst::kIdLdsmaxlh, // #313
+  Inst::kIdLdsmin, // #314
+  Inst::kIdLdsmina, // #315
+  Inst::kIdLdsminab, // #316
+  Inst::kIdLdsminah, // #317
+  Inst::kIdLdsminal, // #318
+  Inst::kIdLdsminalb, // #319
+  Inst::kIdLdsminalh, // #320
+  Inst::kIdLdsminb, // #321
+  Inst::kIdLdsminh, // #322
+  Inst::kIdLdsminl, // #323
+  Inst::kIdLdsminlb, // #324
+  Inst::kIdLdsminlh, // #325
+  Inst::kIdLdtr, // #326
+  Inst::kIdLdtrb, // #327
+  Inst::kIdLdtrh, // #328
+  Inst::kIdLdtrsb, // #329
+  Inst::kIdLdtrsh, // #330
+  Inst::kIdLdtrsw, // #331
+  Inst::kIdLdumax, // #332
+  Inst::kIdLdumaxa, // #333
+  Inst::kIdLdumaxab, // #334
+  Inst::kIdLdumaxah, // #335
+  Inst::kIdLdumaxal, // #336
+  Inst::kIdLdumaxalb, // #337
+  Inst::kIdLdumaxalh, // #338
+  Inst::kIdLdumaxb, // #339
+  Inst::kIdLdumaxh, // #340
+  Inst::kIdLdumaxl, // #341
+  Inst::kIdLdumaxlb, // #342
+  Inst::kIdLdumaxlh, // #343
+  Inst::kIdLdumin, // #344
+  Inst::kIdLdumina, // #345
+  Inst::kIdLduminab, // #346
+  Inst::kIdLduminah, // #347
+  Inst::kIdLduminal, // #348
+  Inst::kIdLduminalb, // #349
+  Inst::kIdLduminalh, // #350
+  Inst::kIdLduminb, // #351
+  Inst::kIdLduminh, // #352
+  Inst::kIdLduminl, // #353
+  Inst::kIdLduminlb, // #354
+  Inst::kIdLduminlh, // #355
+  Inst::kIdLdur, // #356
+  Inst::kIdLdurb, // #357
+  Inst::kIdLdurh, // #358
+  Inst::kIdLdursb, // #359
+  Inst::kIdLdursh, // #360
+  Inst::kIdLdursw, // #361
+  Inst::kIdLdxp, // #362
+  Inst::kIdLdxr, // #363
+  Inst::kIdLdxrb, // #364
+  Inst::kIdLdxrh, // #365
+  Inst::kIdLsl, // #366
+  Inst::kIdLslv, // #367
+  Inst::kIdLsr, // #368
+  Inst::kIdLsrv, // #369
+  Inst::kIdMadd, // #370
+  Inst::kIdMla_v, // #371
+  Inst::kIdMls_v, // #372
+  Inst::kIdMneg, // #373
+  Inst::kIdMov, // #374
+  Inst::kIdMovi_v, // #375
+  Inst::kIdMovk, // #376
+  Inst::kIdMovn, // #377
+  Inst::kIdMovz, // #378
+  Inst::kIdMrs, // #379
+  Inst::kIdMsr, // #380
+  Inst::kIdMsub, // #381
+  Inst::kIdMul, // #382
+  Inst::kIdMvn, // #383
+  Inst::kIdMvni_v, // #384
+  Inst::kIdNeg, // #385
+  Inst::kIdNegs, // #386
+  Inst::kIdNgc, // #387
+  Inst::kIdNgcs, // #388
+  Inst::kIdNop, // #389
+  Inst::kIdNot_v, // #390
+  Inst::kIdOrn, // #391
+  Inst::kIdOrr, // #392
+  Inst::kIdPacda, // #393
+  Inst::kIdPacdb, // #394
+  Inst::kIdPacdza, // #395
+  Inst::kIdPacdzb, // #396
+  Inst::kIdPacga, // #397
+  Inst::kIdPmul_v, // #398
+  Inst::kIdPmull_v, // #399
+  Inst::kIdPmull2_v, // #400
+  Inst::kIdPrfm, // #401
+  Inst::kIdPssbb, // #402
+  Inst::kIdRaddhn_v, // #403
+  Inst::kIdRaddhn2_v, // #404
+  Inst::kIdRax1_v, // #405
+  Inst::kIdRbit, // #406
+  Inst::kIdRet, // #407
+  Inst::kIdRev, // #408
+  Inst::kIdRev16, // #409
+  Inst::kIdRev32, // #410
+  Inst::kIdRev64, // #411
+  Inst::kIdRor, // #412
+  Inst::kIdRorv, // #413
+  Inst::kIdRshrn_v, // #414
+  Inst::kIdRshrn2_v, // #415
+  Inst::kIdRsubhn_v, // #416
+  Inst::kIdRsubhn2_v, // #417
+  Inst::kIdSaba_v, // #418
+  Inst::kIdSabal_v, // #419
+  Inst::kIdSabal2_v, // #420
+  Inst::kIdSabd_v, // #421
+  Inst::kIdSabdl_v, // #422
+  Inst::kIdSabdl2_v, // #423
+  Inst::kIdSadalp_v, // #424
+  Inst::kIdSaddl_v, // #425
+  Inst::kIdSaddl2_v, // #426
+  Inst::kIdSaddlp_v, // #427
+  Inst::kIdSaddlv_v, // #428
+  Inst::kIdSaddw_v, // #429
+  Inst::kIdSaddw2_v, // #430
+  Inst::kIdSbc, // #431
+  Inst::kIdSbcs, // #432
+  Inst::kIdSbfiz, // #433
+  Inst::kIdSbfm, // #434
+  Inst::kIdSbfx, // #435
+  Inst::kIdScvtf_v, // #436
+  Inst::kIdSdiv, // #437
+  Inst::kIdSdot_v, // #438
+  Inst::kIdSetf16, // #439
+  Inst::kIdSetf8, // #440
+  Inst::kIdSev, // #441
+  Inst::kIdSevl, // #442
+  Inst::kIdSha1c_v, // #443
+  Inst::kIdSha1h_v, // #444
+  Inst::kIdSha1m_v, // #445
+  Inst::kIdSha1p_v, // #446
+  Inst::kIdSha1su0_v, // #447
+  Inst::kIdSha1su1_v, // #448
+  Inst::kIdSha256h_v, // #449
+  Inst::kIdSha256h2_v, // #450
+  Inst::kIdSha256su0_v, // #451
+  Inst::kIdSha256su1_v, // #452
+  Inst::kIdSha512h_v, // #453
+  Inst::kIdSha512h2_v, // #454
+  Inst::kIdSha512su0_v, // #455
+  Inst::kIdSha512su1_v, // #456
+  Inst::kIdShadd_v, // #457
+  Inst::kIdShl_v, // #458
+  Inst::kIdShll_v, // #459
+  Inst::kIdShll2_v, // #460
+  Inst::kIdShrn_v, // #461
+  Inst::kIdShrn2_v, // #462
+  Inst::kIdShsub_v, // #463
+  Inst::kIdSli_v, // #464
+  Inst::kIdSm3partw1_v, // #465
+  Inst::kIdSm3partw2_v, // #466
+  Inst::kIdSm3ss1_v, // #467
+  Inst::kIdSm3tt1a_v, // #468
+  Inst::kIdSm3tt1b_v, // #469
+  Inst::kIdSm3tt2a_v, // #470
+  Inst::kIdSm3tt2b_v, // #471
+  Inst::kIdSm4e_v, // #472
+  Inst::kIdSm4ekey_v, // #473
+  Inst::kIdSmaddl, // #474
+  Inst::kIdSmax, // #475
+  Inst::kIdSmaxp_v, // #476
+  Inst::kIdSmaxv_v, // #477
+  Inst::kIdSmc, // #478
+  Inst::kIdSmin, // #479
+  Inst::kIdSminp_v, // #480
+  Inst::kIdSminv_v, // #481
+  Inst::kIdSmlal_v, // #482
+  Inst::kIdSmlal2_v, // #483
+  Inst::kIdSmlsl_v, // #484
+  Inst::kIdSmlsl2_v, // #485
+  Inst::kIdSmmla_v, // #486
+  Inst::kIdSmnegl, // #487
+  Inst::kIdSmov_v, // #488
+  Inst::kIdSmsubl, // #489
+  Inst::kIdSmulh, // #490
+  Inst::kIdSmull, // #491
+  Inst::kIdSmull2_v, // #492
+  Inst::kIdSqabs_v, // #493
+  Inst::kIdSqadd_v, // #494
+  Inst::kIdSqdmlal_v, // #495
+  Inst::kIdSqdmlal2_v, // #496
+  Inst::kIdSqdmlsl_v, // #497
+  Inst::kIdSqdmlsl2_v, // #498
+  Inst::kIdSqdmulh_v, // #499
+  Inst::kIdSqdmull_v, // #500
+  Inst::kIdSqdmull2_v, // #501
+  Inst::kIdSqneg_v, // #502
+  Inst::kIdSqrdmlah_v, // #503
+  Inst::kIdSqrdmlsh_v, // #504
+  Inst::kIdSqrdmulh_v, // #505
+  Inst::kIdSqrshl_v, // #506
+  Inst::kIdSqrshrn_v, // #507
+  Inst::kIdSqrshrn2_v, // #508
+  Inst::kIdSqrshrun_v, // #509
+  Inst::kIdSqrshrun2_v, // #510
+  Inst::kIdSqshl_v, // #511
+  Inst::kIdSqshlu_v, // #512
+  Inst::kIdSqshrn_v, // #513
+  Inst::kIdSqshrn2_v, // #514
+  Inst::kIdSqshrun_v, // #515
+  Inst::kIdSqshrun2_v, // #516
+  Inst::kIdSqsub_v, // #517
+  Inst::kIdSqxtn_v, // #518
+  Inst::kIdSqxtn2_v, // #519
+  Inst::kIdSqxtun_v, // #520
+  Inst::kIdSqxtun2_v, // #521
+  Inst::kIdSrhadd_v, // #522
+  Inst::kIdSri_v, // #523
+  Inst::kIdSrshl_v, // #524
+  Inst::kIdSrshr_v, // #525
+  Inst::kIdSrsra_v, // #526
+  Inst::kIdSsbb, // #527
+  Inst::kIdSshl_v, // #528
+  Inst::kIdSshll_v, // #529
+  Inst::kIdSshll2_v, // #530
+  Inst::kIdSshr_v, // #531
+  Inst::kIdSsra_v, // #532
+  Inst::kIdSsubl_v, // #533
+  Inst::kIdSsubl2_v, // #534
+  Inst::kIdSsubw_v, // #535
+  Inst::kIdSsubw2_v, // #536
+  Inst::kIdSt1_v, // #537
+  Inst::kIdSt2_v, // #538
+  Inst::kIdSt2g, // #539
+  Inst::kIdSt3_v, // #540
+  Inst::kIdSt4_v, // #541
+  Inst::kIdStadd, // #542
+  Inst::kIdStaddb, // #543
+  Inst::kIdStaddh, // #544
+  Inst::kIdStaddl, // #545
+  Inst::kIdStaddlb, // #546
+  Inst::kIdStaddlh, // #547
+  Inst::kIdStclr, // #548
+  Inst::kIdStclrb, // #549
+  Inst::kIdStclrh, // #550
+  Inst::kIdStclrl, // #551
+  Inst::kIdStclrlb, // #552
+  Inst::kIdStclrlh, // #553
+  Inst::kIdSteor, // #554
+  Inst::kIdSteorb, // #555
+  Inst::kIdSteorh, // #556
+  Inst::kIdSteorl, // #557
+  Inst::kIdSteorlb, // #558
+  Inst::kIdSteorlh, // #559
+  Inst::kIdStg, // #560
+  Inst::kIdStgm, // #561
+  Inst::kIdStgp, // #562
+  Inst::kIdStllr, // #563
+  Inst::kIdStllrb, // #564
+  Inst::kIdStllrh, // #565
+  Inst::kIdStlr, // #566
+  Inst::kIdStlrb, // #567
+  Inst::kIdStlrh, // #568
+  Inst::kIdStlxp, // #569
+  Inst::kIdStlxr, // #570
+  Inst::kIdStlxrb, // #571
+  Inst::kIdStlxrh, // #572
+  Inst::kIdStnp, // #573
+  Inst::kIdStp, // #574
+  Inst::kIdStr, // #575
+  Inst::kIdStrb, // #576
+  Inst::kIdStrh, // #577
+  Inst::kIdStset, // #578
+  Inst::kIdStsetb, // #579
+  Inst::kIdStseth, // #580
+  Inst::kIdStsetl, // #581
+  Inst::kIdStsetlb, // #582
+  Inst::kIdStsetlh, // #583
+  Inst::kIdStsmax, // #584
+  Inst::kIdStsmaxb, // #585
+  Inst::kIdStsmaxh, // #586
+  Inst::kIdStsmaxl, // #587
+  Inst::kIdStsmaxlb, // #588
+  Inst::kIdStsmaxlh, // #589
+  Inst::kIdStsmin, // #590
+  Inst::kIdStsminb, // #591
+  Inst::kIdStsminh, // #592
+  Inst::kIdStsminl, // #593
+  Inst::kIdStsminlb, // #594
+  Inst::kIdStsminlh, // #595
+  Inst::kIdSttr, // #596
+  Inst::kIdSttrb, // #597
+  Inst::kIdSttrh, // #598
+  Inst::kIdStumax, // #599
+  Inst::kIdStumaxb, // #600
+  Inst::kIdStumaxh, // #601
+  Inst::kIdStumaxl, // #602
+  Inst::kIdStumaxlb, // #603
+  Inst::kIdStumaxlh, // #604
+  Inst::kIdStumin, // #605
+  Inst::kIdStuminb, // #606
+  Inst::kIdStuminh, // #607
+  Inst::kIdStuminl, // #608
+  Inst::kIdStuminlb, // #609
+  Inst::kIdStuminlh, // #610
+  Inst::kIdStur, // #611
+  Inst::kIdSturb, // #612
+  Inst::kIdSturh, // #613
+  Inst::kIdStxp, // #614
+  Inst::kIdStxr, // #615
+  Inst::kIdStxrb, // #616
+  Inst::kIdStxrh, // #617
+  Inst::kIdStz2g, // #618
+  Inst::kIdStzg, // #619
+  Inst::kIdStzgm, // #620
+  Inst::kIdSub, // #621
+  Inst::kIdSubg, // #622
+  Inst::kIdSubhn_v, // #623
+  Inst::kIdSubhn2_v, // #624
+  Inst::kIdSubp, // #625
+  Inst::kIdSubps, // #626
+  Inst::kIdSubs, // #627
+  Inst::kIdSudot_v, // #628
+  Inst::kIdSuqadd_v, // #629
+  Inst::kIdSvc, // #630
+  Inst::kIdSwp, // #631
+  Inst::kIdSwpa, // #632
+  Inst::kIdSwpab, // #633
+  Inst::kIdSwpah, // #634
+  Inst::kIdSwpal, // #635
+  Inst::kIdSwpalb, // #636
+  Inst::kIdSwpalh, // #637
+  Inst::kIdSwpb, // #638
+  Inst::kIdSwph, // #639
+  Inst::kIdSwpl, // #640
+  Inst::kIdSwplb, // #641
+  Inst::kIdSwplh, // #642
+  Inst::kIdSxtb, // #643
+  Inst::kIdSxth, // #644
+  Inst::kIdSxtl_v, // #645
+  Inst::kIdSxtl2_v, // #646
+  Inst::kIdSxtw, // #647
+  Inst::kIdSys, // #648
+  Inst::kIdTbl_v, // #649
+  Inst::kIdTbnz, // #650
+  Inst::kIdTbx_v, // #651
+  Inst::kIdTbz, // #652
+  Inst::kIdTlbi, // #653
+  Inst::kIdTrn1_v, // #654
+  Inst::kIdTrn2_v, // #655
+  Inst::kIdTst, // #656
+  Inst::kIdUaba_v, // #657
+  Inst::kIdUabal_v, // #658
+  Inst::kIdUabal2_v, // #659
+  Inst::kIdUabd_v, // #660
+  Inst::kIdUabdl_v, // #661
+  Inst::kIdUabdl2_v, // #662
+  Inst::kIdUadalp_v, // #663
+  Inst::kIdUaddl_v, // #664
+  Inst::kIdUaddl2_v, // #665
+  Inst::kIdUaddlp_v, // #666
+  Inst::kIdUaddlv_v, // #667
+  Inst::kIdUaddw_v, // #668
+  Inst::kIdUaddw2_v, // #669
+  Inst::kIdUbfiz, // #670
+  Inst::kIdUbfm, // #671
+  Inst::kIdUbfx, // #672
+  Inst::kIdUcvtf_v, // #673
+  Inst::kIdUdf, // #674
+  Inst::kIdUdiv, // #675
+  Inst::kIdUdot_v, // #676
+  Inst::kIdUhadd_v, // #677
+  Inst::kIdUhsub_v, // #678
+  Inst::kIdUmaddl, // #679
+  Inst::kIdUmax, // #680
+  Inst::kIdUmaxp_v, // #681
+  Inst::kIdUmaxv_v, // #682
+  Inst::kIdUmin, // #683
+  Inst::kIdUminp_v, // #684
+  Inst::kIdUminv_v, // #685
+  Inst::kIdUmlal_v, // #686
+  Inst::kIdUmlal2_v, // #687
+  Inst::kIdUmlsl_v, // #688
+  Inst::kIdUmlsl2_v, // #689
+  Inst::kIdUmmla_v, // #690
+  Inst::kIdUmnegl, // #691
+  Inst::kIdUmov_v, // #692
+  Inst::kIdUmsubl, // #693
+  Inst::kIdUmulh, // #694
+  Inst::kIdUmull, // #695
+  Inst::kIdUmull2_v, // #696
+  Inst::kIdUqadd_v, // #697
+  Inst::kIdUqrshl_v, // #698
+  Inst::kIdUqrshrn_v, // #699
+  Inst::kIdUqrshrn2_v, // #700
+  Inst::kIdUqshl_v, // #701
+  Inst::kIdUqshrn_v, // #702
+  Inst::kIdUqshrn2_v, // #703
+  Inst::kIdUqsub_v, // #704
+  Inst::kIdUqxtn_v, // #705
+  Inst::kIdUqxtn2_v, // #706
+  Inst::kIdUrecpe_v, // #707
+  Inst::kIdUrhadd_v, // #708
+  Inst::kIdUrshl_v, // #709
+  Inst::kIdUrshr_v, // #710
+  Inst::kIdUrsqrte_v, // #711
+  Inst::kIdUrsra_v, // #712
+  Inst::kIdUsdot_v, // #713
+  Inst::kIdUshl_v, // #714
+  Inst::kIdUshll_v, // #715
+  Inst::kIdUshll2_v, // #716
+  Inst::kIdUshr_v, // #717
+  Inst::kIdUsmmla_v, // #718
+  Inst::kIdUsqadd_v, // #719
+  Inst::kIdUsra_v, // #720
+  Inst::kIdUsubl_v, // #721
+  Inst::kIdUsubl2_v, // #722
+  Inst::kIdUsubw_v, // #723
+  Inst::kIdUsubw2_v, // #724
+  Inst::kIdUxtb, // #725
+  Inst::kIdUxth, // #726
+  Inst::kIdUxtl_v, // #727
+  Inst::kIdUxtl2_v, // #728
+  Inst::kIdUzp1_v, // #729
+  Inst::kIdUzp2_v, // #730
+  Inst::kIdWfe, // #731
+  Inst::kIdWfi, // #732
+  Inst::kIdXaflag, // #733
+  Inst::kIdXar_v, // #734
+  Inst::kIdXpacd, // #735
+  Inst::kIdXpaci, // #736
+  Inst::kIdXpaclri, // #737
+  Inst::kIdXtn_v, // #738
+  Inst::kIdXtn2_v, // #739
+  Inst::kIdYield, // #740
+  Inst::kIdZip1_v, // #741
+  Inst::kIdZip2_v  // #742
 };
 // ----------------------------------------------------------------------------
 // ${NameData:End}
